@@ -1,0 +1,102 @@
+//! # Verification hooks
+//!
+//! Compiled only with the cargo feature `qrlew_verif`. Nothing in here changes the behaviour
+//! of the library: the hooks expose scheduling points and observations to an external
+//! model-checking harness.
+
+use std::{
+    cell::RefCell,
+    sync::{Arc, Mutex},
+};
+
+use crate::{
+    relation::Variant as _,
+    rewriting::{RelationWithDpEvent, RelationWithRewritingRule},
+    visitor::Acceptor,
+};
+
+/// A callback invoked at every scheduling point (before a shared-state access)
+pub type Scheduler = Arc<dyn Fn(&'static str) + Send + Sync>;
+
+static SCHEDULER: Mutex<Option<Scheduler>> = Mutex::new(None);
+
+/// Install (or remove) the scheduler callback
+pub fn set_scheduler(scheduler: Option<Scheduler>) {
+    *SCHEDULER.lock().unwrap() = scheduler;
+}
+
+/// A scheduling point
+pub fn sched_point(label: &'static str) {
+    let scheduler = SCHEDULER.lock().unwrap().clone();
+    if let Some(scheduler) = scheduler {
+        scheduler(label)
+    }
+}
+
+/// What the rewriting search did
+#[derive(Clone, Debug, PartialEq)]
+pub enum Event {
+    /// A derivation that passed the root filter of an entry point (in enumeration order)
+    Candidate {
+        entry: &'static str,
+        derivation: String,
+        output: String,
+        score: f64,
+    },
+    /// The rewriting of the latest candidate
+    Rewritten { relation: usize, score: f64 },
+    /// The rewriting that was returned
+    Selected { relation: usize },
+}
+
+thread_local! {
+    static EVENTS: RefCell<Vec<Event>> = RefCell::new(Vec::new());
+}
+
+/// `name[inputs -> output](children)` for every node of a derivation
+pub fn describe<'a>(rwrr: &RelationWithRewritingRule<'a>) -> String {
+    format!(
+        "{}[{}]({})",
+        rwrr.relation().name(),
+        rwrr.attributes(),
+        rwrr.inputs()
+            .iter()
+            .map(|input| describe(input))
+            .collect::<Vec<_>>()
+            .join(",")
+    )
+}
+
+pub fn candidate<'a>(entry: &'static str, rwrr: &'a RelationWithRewritingRule<'a>) {
+    let event = Event::Candidate {
+        entry,
+        derivation: describe(rwrr),
+        output: rwrr.attributes().output().to_string(),
+        score: rwrr.accept(crate::rewriting::rewriting_rule::Score),
+    };
+    EVENTS.with(|events| events.borrow_mut().push(event));
+}
+
+fn address(relation: &RelationWithDpEvent) -> usize {
+    relation.relation() as *const crate::Relation as usize
+}
+
+pub fn rewritten(relation: &RelationWithDpEvent, score: f64) {
+    let event = Event::Rewritten {
+        relation: address(relation),
+        score,
+    };
+    EVENTS.with(|events| events.borrow_mut().push(event));
+}
+
+pub fn selected(relation: &RelationWithDpEvent) {
+    let event = Event::Selected {
+        relation: address(relation),
+    };
+    EVENTS.with(|events| events.borrow_mut().push(event));
+}
+
+/// Take the events recorded on this thread
+pub fn take_events() -> Vec<Event> {
+    EVENTS.with(|events| std::mem::take(&mut *events.borrow_mut()))
+}
